@@ -12,3 +12,32 @@ Theorem C14_range_check_no_overflow :
   forall r full a c, full < U64 -> check r full = Some (a, c) -> a <= c /\ c <= full.
 Proof. exact check_no_overflow. Qed.
 Print Assumptions C14_range_check_no_overflow.
+
+(* what Range::to_header_string prints, Range::parse reads back as the same range *)
+Theorem C14_range_print_parse : forall r,
+  match r with
+  | RInt f None => f < I63
+  | RInt f (Some l) => f <= l /\ l < I63
+  | RSuffix l => l < U64
+  end -> parse (to_header r) = Some r.
+Proof. exact parse_to_header. Qed.
+Print Assumptions C14_range_print_parse.
+
+(* timestamps in the date-time format (the format of every XML timestamp): parse (format t) is the same instant truncated
+   to milliseconds, for every instant whose UTC year is 0..9999; the civil date of every day number is a valid date and
+   maps back to the day number (unbounded in the year) *)
+From S3V Require Import lib.Calendar model.Timestamp proofs.CalendarProofs proofs.TimestampProofs.
+Theorem C14_datetime_roundtrip : forall t, year_ok t ->
+  exists s, format_ts DateTime t = Some s /\ parse_ts DateTime s = Some (truncate_ts DateTime t).
+Proof. exact datetime_roundtrip. Qed.
+Print Assumptions C14_datetime_roundtrip.
+Theorem C14_calendar_bijection : forall z,
+  let '(y, m, d) := civil_from_days z in days_from_civil y m d = z /\ valid_date y m d = true.
+Proof. intros z. pose proof (days_civil_days z) as H1. pose proof (civil_valid z) as H2. destruct (civil_from_days z) as [[y m] d]. split; assumption. Qed.
+Print Assumptions C14_calendar_bijection.
+Example C14_datetime_example :
+  format_ts DateTime 1577934245123456789%Z = Some (b "2020-01-02T03:04:05.123Z")
+  /\ parse_ts DateTime (b "2020-01-02T03:04:05.123Z") = Some 1577934245123000000%Z
+  /\ parse_ts DateTime (b "2020-01-02T11:04:05.5+08:00") = Some 1577934245500000000%Z.
+Proof. vm_compute. repeat split. Qed.
+Print Assumptions C14_datetime_example.
